@@ -45,6 +45,7 @@ class Res:
     tz: Optional[str] = None
     shift: Optional[str] = None
     rate: Optional[float] = None
+    bookings: list[tuple[str, str]] = field(default_factory=list)   # [("2025-01-06-09:00", "1w")] -> booking "b" <date> +<duration>
 
 
 @dataclass
@@ -81,6 +82,7 @@ class Spec:
     resolution: int = 3600
     scheduling: Optional[str] = None
     vacations: list[str] = field(default_factory=list)     # ["2025-01-08", "2025-01-09 - 2025-01-11"]
+    global_leaves: list[str] = field(default_factory=list)  # ["2025-01-07"] -> leaves holiday "h" <interval> at project level
     shifts: dict[str, list[str]] = field(default_factory=dict)   # shift id -> workinghours lines
     scenarios: Optional[str] = None                        # raw scenario block text inside project {...}
     scen_names: list[str] = field(default_factory=lambda: ["plan"])   # in declaration (= index) order
@@ -161,6 +163,8 @@ def render(spec: Spec, vals: Optional[dict] = None, defaults: Optional[dict] = N
     out.append("}")
     for vac in spec.vacations:
         out.append(f'vacation "v" {vac}')
+    for lv in spec.global_leaves:
+        out.append(f'leaves holiday "h" {lv}')
     for sid, lines in spec.shifts.items():
         out.append(f'shift {sid} "{sid}" {{')
         for ln in lines:
@@ -186,6 +190,8 @@ def render(spec: Spec, vals: Optional[dict] = None, defaults: Optional[dict] = N
                 out.append(f"{ind}  leaves {ln}")
             for ln in r.vacation:
                 out.append(f"{ind}  vacation {ln}")
+            for (when, dur) in r.bookings:
+                out.append(f'{ind}  booking "b" {when} +{dur}')
             if r.limits:
                 out.append(f"{ind}  limits {{ " + " ".join(f"{k} {x}" for k, x in r.limits.items()) + " }")
             emit_res(r.id, ind + "  ")
